@@ -345,11 +345,7 @@ def parse_ecall(tok):
     head, args, rets, bang, rest = m.groups()
     A = []
     for a in [x for x in args.split(",") if x]:
-        kind = ""
-        mm = re.match(r"^(.*?)(W\[.*\]\??|W\??(?:body)?|w)$", a)
-        val = a
-        if mm and not re.match(r"^A\d+$", a) and not re.match(r"^P\d+\.\d+$", a) and not re.match(r"^F\.\w+$", a):
-            val, kind = mm.group(1), mm.group(2)
+        val, _, kind = a.partition("^")
         A.append(dict(val=val, wait=kind))
     Rs = [dict(used=r.startswith("r"), chan=r.endswith("c")) for r in rets.split(",") if r]
     return dict(head=head, args=A, rets=Rs, fallible=bang == "!", odd=rest, tok=tok)
